@@ -651,7 +651,8 @@ class SAMIParser(HTMLParser):
         self.line = ''
         self.styles = {}
         self.queue = deque()
-        self.langs = set()
+        # insertion-ordered: languages are reported in order of first appearance
+        self.langs = {}
         self.last_element = ''
         self.name2codepoint = name2codepoint.copy()
         self.name2codepoint['apos'] = 0x0027
@@ -676,7 +677,7 @@ class SAMIParser(HTMLParser):
             # if no language detected, set it as the default
             lang = lang or DEFAULT_LANGUAGE_CODE
             attrs.append(('lang', lang))
-            self.langs.add(lang)
+            self.langs[lang] = None
 
         # clean-up line breaks
         if tag == 'br':
@@ -766,7 +767,7 @@ class SAMIParser(HTMLParser):
             closing_tag = self.queue.pop()
             self.sami += f"</{closing_tag}>"
 
-        return self.sami, self.styles, self.langs
+        return self.sami, self.styles, list(self.langs)
 
     # parse the SAMI's stylesheet
     def _css_parse(self, css):
